@@ -480,11 +480,9 @@ class BaseDAG(Generic[P, RVDAG]):
         exclude_nodes: Optional[Sequence[Alias]],
         root_nodes: Optional[Sequence[Alias]],
     ) -> DiGraphEx:
-        # 1. if target_nodes is not provided run all setup ExecNodes
+        # 1. if target_nodes is not provided run all the setup ExecNodes of the selection
         if target_nodes is not None:
             target_nodes = self.get_multiple_nodes_aliases(target_nodes)
-        else:
-            target_nodes = self.graph_ids.setup_nodes
 
         # 2. the leaves_ids that the user wants to execute
         if exclude_nodes is not None:
@@ -1103,7 +1101,11 @@ class DAGExecution(BaseDAGExecution[P, RVDAG]):
         # TODO: handle the case where cache_deps_of is provided instead of target_nodes and exclude_nodes
         #  in which case the deps_of might have a setup node themselves which should not run.
         #  This is an edge case though that is not important to handle at the current moment.
-        self.dag.setup(target_nodes=self.target_nodes, exclude_nodes=self.exclude_nodes)
+        self.dag.setup(
+            target_nodes=self.target_nodes,
+            exclude_nodes=self.exclude_nodes,
+            root_nodes=self.root_nodes,
+        )
 
     def __call__(self, *args: P.args, **kwargs: P.kwargs) -> RVDAG:
         """Call the DAG.
@@ -1140,7 +1142,11 @@ class AsyncDAGExecution(BaseDAGExecution[P, RVDAG]):
         # TODO: handle the case where cache_deps_of is provided instead of target_nodes and exclude_nodes
         #  in which case the deps_of might have a setup node themselves which should not run.
         #  This is an edge case though that is not important to handle at the current moment.
-        await self.dag.setup(target_nodes=self.target_nodes, exclude_nodes=self.exclude_nodes)
+        await self.dag.setup(
+            target_nodes=self.target_nodes,
+            exclude_nodes=self.exclude_nodes,
+            root_nodes=self.root_nodes,
+        )
 
     async def __call__(self, *args: P.args, **kwargs: P.kwargs) -> RVDAG:
         """Call the DAG.
